@@ -131,6 +131,29 @@ def write_xlsx_with_results(path, cells, results, sheet='S', arrays=None,
             text = re.sub(
                 r'<c r="([A-Z]+[0-9]+)"([^>]*)>(<f[^>]*>[^<]*</f>|<f[^>]*/>)<v\s*/>\s*</c>',
                 patch, text)
+            # members of an array formula other than its first cell have no
+            # <c> element: add one carrying the stored result
+            for addr, v in results.items():
+                if f'<c r="{addr}"' in text:
+                    continue
+                rownum = re.sub(r'[A-Z]+', '', addr)
+                if isinstance(v, bool):
+                    cell = f'<c r="{addr}" t="b"><v>{int(v)}</v></c>'
+                elif isinstance(v, (int, float)):
+                    cell = f'<c r="{addr}"><v>{v!r}</v></c>'
+                elif isinstance(v, str) and v.startswith('#'):
+                    cell = f'<c r="{addr}" t="e"><v>{v}</v></c>'
+                else:
+                    cell = f'<c r="{addr}" t="str"><v>{v}</v></c>'
+                m = re.search(r'<row r="%s"[^>]*>' % rownum, text)
+                if m and not m.group(0).endswith('/>'):
+                    end = text.index('</row>', m.end())
+                    text = text[:end] + cell + text[end:]
+                else:
+                    if m:
+                        text = text.replace(m.group(0), '', 1)
+                    text = text.replace('</sheetData>',
+                                        f'<row r="{rownum}">{cell}</row></sheetData>')
             data = text.encode('utf8')
         zout.writestr(item, data)
     zout.close()
